@@ -290,7 +290,18 @@ def plan_hist(index, depth):
            {"k": "bc", "out": "b1", "a": {"m": "m1"}}]
     if rng.random() < 0.6:
         ops += _robin_setup(rng, cls, b="b1", p=0.5)
-    ops += [{"k": "var", "out": "vA", "a": {"m": "m1", "val": _vdesc(rng), "bc": "b1"}},
+    # both construction styles for the main variable: interior array, or an array
+    # that already includes the ghost cells (float or integer storage)
+    va = {"m": "m1", "val": _vdesc(rng), "bc": "b1"}
+    u = rng.random()
+    if u < 0.2:
+        va["ghosts"] = True
+    elif u < 0.3:
+        va.update({"ghosts": True, "dtype": "int",
+                   "val": {"d": "ints", "lo": -2, "hi": 2, "s": _seed(rng)}})
+    elif u < 0.4:
+        va.update({"scalar": True, "val": {"d": "const", "x": _r(rng, 0.5, 3.0)}})
+    ops += [{"k": "var", "out": "vA", "a": va},
             {"k": "var", "out": "vB", "a": {"m": "m1", "val": _vdesc(rng), "bc": "b1"}},
             {"k": "var", "out": "vC", "outb": "bC", "a": {"m": "m1", "val": _vdesc(rng)}},
             {"k": "face", "out": "fD", "a": {"m": "m1", "scalar": _r(rng, 0.5, 2.0)}},
